@@ -122,7 +122,7 @@ def build_model():
     if os.path.exists(stamp) and open(stamp).read() == key and os.path.exists(f'{VERIF}/ocaml/model_run'):
         return True, 'cached'
     # extraction needs the compiled model
-    ok, log, _ = coq_make(['spec/Abs.vo', 'spec/FenSpec.vo', 'model/Table.vo', 'model/Eval.vo', 'spec/SanSpec.vo', 'model/Search.vo', 'model/Uci.vo', 'model/Book.vo'] + EXTRA_MODEL_TARGETS)
+    ok, log, _ = coq_make(['spec/Abs.vo', 'spec/FenSpec.vo', 'model/Table.vo', 'model/Eval.vo', 'spec/SanSpec.vo', 'model/Search.vo', 'model/Uci.vo', 'model/Book.vo', 'spec/GameValue.vo'] + EXTRA_MODEL_TARGETS)
     if not ok:
         return False, log[-3000:]
     rc, out, _ = sh([f'{VERIF}/ocaml/build.sh'], timeout=900)
